@@ -184,22 +184,22 @@ func runStock(rc *RunCtx) {
 	fstdout := &el.FileSink{Path: "/dev/stdout", FileName: "x.log"}
 	fstderr := &el.FileSink{Path: "/dev/stderr", FileName: "x.log", MaxBytes: 100}
 	nodes := map[string]el.Node{
-		"fstdout": fstdout,
-		"fstderr": fstderr,
-		"filter":  &el.Filter{Predicate: func(e *el.Event) (bool, error) { return true, nil }},
-		"filter2": &el.Filter{Predicate: func(e *el.Event) (bool, error) { return e.Payload != nil, nil }},
-		"encrypt": ef,
+		"fstdout":  fstdout,
+		"fstderr":  fstderr,
+		"filter":   &el.Filter{Predicate: func(e *el.Event) (bool, error) { return true, nil }},
+		"filter2":  &el.Filter{Predicate: func(e *el.Event) (bool, error) { return e.Payload != nil, nil }},
+		"encrypt":  ef,
 		"encrypt2": ef2,
-		"gated":   gf,
-		"json":    &el.JSONFormatter{},
-		"jsonff":  &el.JSONFormatterFilter{Predicate: func(interface{}) (bool, error) { return true, nil }},
-		"ce":      ce,
-		"file":    fsink,
-		"filece":  fsinkCE,
-		"w0":      &writer.Sink{Writer: &stockWriter{out, 0}},
-		"w1":      &writer.Sink{Writer: &stockWriter{out, 1}},
-		"wce":     &writer.Sink{Writer: &stockWriter{out, 2}, Format: string(cloudevents.FormatJSON)},
-		"chan":    chSink,
+		"gated":    gf,
+		"json":     &el.JSONFormatter{},
+		"jsonff":   &el.JSONFormatterFilter{Predicate: func(interface{}) (bool, error) { return true, nil }},
+		"ce":       ce,
+		"file":     fsink,
+		"filece":   fsinkCE,
+		"w0":       &writer.Sink{Writer: &stockWriter{out, 0}},
+		"w1":       &writer.Sink{Writer: &stockWriter{out, 1}},
+		"wce":      &writer.Sink{Writer: &stockWriter{out, 2}, Format: string(cloudevents.FormatJSON)},
+		"chan":     chSink,
 	}
 	for id, n := range nodes {
 		if err := b.RegisterNode(el.NodeID(id), n); err != nil {
